@@ -192,16 +192,34 @@ def oracle_case(case, obs):
                     return dict(why=where + "bulk_write on a transport without a handle gave %s with calls %s (expected UsbWriteFailedError, no backend call)" % (
                         res, [show_call(c) for c in calls]), kind="use-after-close")
             else:
+                # The property's wording, not one particular call pattern: whatever transfers bulk_write makes, they carry consecutive pieces of the data,
+                # each starting where the bytes ACCEPTED so far end (no gap, no repetition), on the OUT endpoint; a libusb error surfaces as
+                # UsbWriteFailedError; the reported count is the number of bytes libusb accepted.
                 xfer = [(c, r) for c, r in zip(calls, rets) if c[0] == "bulkWrite"]
-                if len(xfer) != 1 or calls[0][0] != "bulkWrite" or xfer[0][0][3] != op[1]:
-                    return dict(why=where + "expected exactly one bulkWrite of the data first, saw %s" % ([show_call(c) for c in calls],), kind="write-calls")
-                c, r = xfer[0]
-                if r[0] == "err":
+                if not xfer and not op[1] and res == "ok 0":
+                    pass        # nothing to write, nothing written
+                elif not xfer or calls[0][0] != "bulkWrite":
+                    return dict(why=where + "expected a bulkWrite of the data first, saw %s" % ([show_call(c)[:60] for c in calls],), kind="write-calls")
+                data_hex, off, failed, reported = op[1], 0, None, 0
+                for c, r in xfer:
+                    piece = c[3] if isinstance(c[3], str) else hx(c[3])
+                    piece = "" if piece == "-" else piece
+                    if failed is not None:
+                        return dict(why=where + "bulk_write went on with another transfer after libusb raised USBError(%s)" % failed, kind="write-calls")
+                    if piece != data_hex[2 * off: 2 * off + len(piece)] or (not piece and data_hex):
+                        return dict(why=where + "bulk_write handed libusb %d bytes that are not the data from offset %d on (libusb had accepted %d of %d bytes so far): a gap or a repetition "
+                                    "in what the peer receives" % (len(piece) // 2, off, off, len(data_hex) // 2), kind="write-gap")
+                    if r[0] == "err":
+                        failed = r[2]
+                    else:
+                        off += min(int(r[2]), len(piece) // 2)     # (a scripted count larger than the transfer means: all of it)
+                        reported += int(r[2])
+                if failed is not None:
                     # UsbWriteFailedError carries the libusb error as its second argument only (no `usb_error` attribute)
-                    if res != "err UsbWriteFailedError" or o["detail"].get("args1") != "USBError:" + r[2]:
-                        return dict(why=where + "backend raised USBError(%s) but bulk_write gave %s" % (r[2], res), kind="error-mapping")
-                elif res != "ok %s" % (r[2],):
-                    return dict(why=where + "backend accepted %r bytes but bulk_write returned %s" % (r[2], res), kind="write-count")
+                    if res != "err UsbWriteFailedError" or o["detail"].get("args1") != "USBError:" + failed:
+                        return dict(why=where + "backend raised USBError(%s) but bulk_write gave %s" % (failed, res), kind="error-mapping")
+                elif res != "ok %s" % (reported,):
+                    return dict(why=where + "backend accepted %r bytes but bulk_write returned %s" % (reported, res), kind="write-count")
         elif op[0] == "close":
             if res != "ok":
                 return dict(why=where + "close() raised %s" % res, kind="close-raises")
@@ -347,6 +365,23 @@ def gen_lifecycle(rng):
         for win in (False, True):
             out.append(base_case(win=win, dms=rng.choice(DEFAULTS), script=[["ok", payload(rng, rng.choice([0, 1, 2])), rng.choice([0, 1, 2])] for _ in range(14)],
                                  ops=ops, family="lifecycle"))
+    # writes larger than any internal chunking limit one might think of (16 KiB usbfs URBs, 64 KiB): ONE bulkWrite with the whole buffer, its count returned
+    for win in (False, True):
+        for size in (16385, 40000, 70000):
+            for second in (1, 100, 16383, 16384, 20000):
+                # entries are consumed per bulkWrite CALL: with one call per write (the code as it is) the three writes get `size`, `second`, `size - 1`;
+                # an implementation that splits a buffer into several transfers meets the short count `second` in the middle of its first buffer
+                s = Script(win)
+                s.connect(0)
+                s.write(size)
+                s.write(second)
+                s.write(size - 1)
+                for _ in range(12):
+                    s.write(size)
+                s.close()
+                k0 = rng.randrange(256)
+                big = bytes((k0 + i) % 251 for i in range(size)).hex()      # position-dependent content: a gap or a repetition is visible
+                out.append(base_case(win=win, script=s.s, ops=[["connect"], ["write", big, 0.5], ["write", big, None], ["write", big, 2.25], ["close"]], family="big-write"))
     # a read that times out after PART of the data arrived (libusb reports it in USBErrorTimeout.received), then close / connect / read:
     # the new connection's reads are what the IN endpoint delivers now, nothing of the old session
     for win in (False, True):
